@@ -1063,6 +1063,12 @@ class DynamicVector : public DynamicVectorBaseTypeDispatcher<T, Alloc, SizeType,
     if (!this->canSwapDynStorage(o)) {
       adjustCapacity(o.size());
       o.adjustCapacity(this->size());
+    } else if (AMC_UNLIKELY(static_cast<uintmax_t>(std::numeric_limits<SizeType>::max()) < o.capacity() ||
+                            static_cast<uintmax_t>(std::numeric_limits<typename VectorType::size_type>::max()) <
+                                this->capacity())) {
+      // The dynamic buffers are about to change owner: check here, before anything is modified (swap2_impl is noexcept),
+      // that each capacity can be represented by the size_type of its new owner
+      throw std::overflow_error("Cannot cast size to each other");
     }
   }
 };
